@@ -618,7 +618,15 @@ func runReaderScript(top *codec.DecodingReader, script []string) string {
 		default:
 			c, _ := strconv.ParseUint(q[1:], 16, 64)
 			p := make([]byte, c)
-			if _, err := readers[cur].Read(p); err != nil {
+			r := readers[cur]
+			refused := c > 0 && (c > ^uint64(0)-r.Index() || r.Index()+c > r.Max())
+			if _, err := r.Read(p); err != nil {
+				if refused {
+					// refused for lack of scope before anything was taken from the stream: the
+					// reader is as it was and the caller may go on with it
+					parts = append(parts, "REF")
+					continue
+				}
 				return strings.Join(append(parts, "ERR"), ",")
 			}
 			parts = append(parts, hexBytes(p))
